@@ -68,6 +68,10 @@ CLAIMED = {
    text='Seeds.tla: generators as explicit streams (seed, position), generator 0 = the global numpy state which an adversary re-seeds between any two steps; twin builds of pipelines with 1-3 random stages (reshuffle, local shuffle, one-time shuffle, lazy apply) wrapped by copy / copy(freeze) / prefetch(1,b) / prefetch(2,b), 3 epochs. TLC enumerates the scenarios and checks the design; each is executed on the real library with RandomState / default_rng generators and adversarial np.random.seed calls and TLC judges TwinsAgree, GlobalIndependent, FrozenFixed, Unordered, CopyAgrees, PrefetchAgrees; CopyKeepsParams compares vars() of every Dataset class with its own copy() against its copy.',
    note='The design-level verdicts use one fixed stream function. S19 (copy un-shares a reshuffle object used twice) is a recorded finding.',
    tech='TLA+ model of generator streams and copy(freeze), TLC enumeration + replay with real numpy generators + trace validation'),
+ 'C20': dict(engine='demand', cat='model_checking', ref='DESIGN.md section 6 C20',
+   text='Profile.tla (on top of Demand.tla): for every chain program TLC enumerates, the number of examples fetched from stage s is the size of the request the demand-propagation machine sends to stage s (the machine that C08 validates against real call logs). Every program is observed plain and under ProfilingDataset on the real library - iteration twice, len, ds[i] for all i incl. errors -, the original object graph is compared before / after wrapping, and the hit counters of every wrapper are read after a full iteration, after taking k results for every k, and after ds[i] for every i; TLC judges transparency, untouched, and hits = fetches (failed fetches apart).',
+   note='Chain programs incl. single-thread prefetch; chains with two batch stages are judged for transparency only (index-mode batches over-fetch by probing). Pool prefetch behind the wrapper is not in the family.',
+   tech='TLA+ demand machine as fetch-count oracle, TLC enumeration + trace validation'),
 }
 
 PENDING_REASON = 'check not built yet in this round (specification planned in DESIGN.md section 6); will be claimed when its check exists'
@@ -109,8 +113,8 @@ def main():
             {'name': 'pipeline', 'path': '/verif/specs/Pipeline.tla',
              'serves_properties': ['C01', 'C02', 'C03', 'C14', 'C16', 'C18'],
              'kind_free_text': 'TLA+ specs Values/Ref/Impl/Obs/Pipeline/PipelineTrace checked with TLC; harness/{build,observe,pipeline}.py bind them to the code in both directions'},
-            {'name': 'demand', 'path': '/verif/specs/Demand.tla', 'serves_properties': ['C08'],
-             'kind_free_text': 'Demand.tla / DemandTrace.tla + harness/check_demand.py'},
+            {'name': 'demand', 'path': '/verif/specs/Demand.tla', 'serves_properties': ['C08', 'C20'],
+             'kind_free_text': 'Demand.tla / DemandTrace.tla / Profile.tla / ProfileTrace.tla + harness/check_demand.py, check_profile.py'},
             {'name': 'diskcache', 'path': '/verif/specs/DiskCache.tla', 'serves_properties': ['C11'],
              'kind_free_text': 'DiskCache.tla / DiskCacheTrace.tla + harness/check_diskcache.py'},
             {'name': 'random', 'path': '/verif/specs/Random.tla', 'serves_properties': ['C12', 'C13'],
